@@ -5,6 +5,7 @@ Queue._run_policies / Queue.enqueue (recording store), and the property oracle
 on the envelopes passed to store.write."""
 import re, itertools, collections
 import gevent
+from email.message import EmailMessage
 
 from vp.core import B, U
 
@@ -42,6 +43,36 @@ class KeepSplit(QueuePolicy):
         return [envelope] + [envelope.copy([r]) for r in rest]
 
 
+class RecHeaders(EmailMessage):
+    """envelope.headers of the input (and, through deepcopy, of every copy) is given this class: assignments of
+    header fields by the policies are recorded together with the field names present at that moment"""
+    log = []
+
+    def __setitem__(self, name, val):
+        RecHeaders.log.append((name, list(self.keys())))
+        EmailMessage.__setitem__(self, name, val)
+
+
+def added_although_present(log):
+    for name, keys in log:
+        if name.lower() in ('date', 'message-id') and name.lower() in [k.lower() for k in keys]:
+            return name, keys
+    return None
+
+
+MAX_PER_KEY = 25
+_reported = collections.Counter()
+
+
+def fail(ctx, key, case, what):
+    """ctx.fail, at most MAX_PER_KEY full reports per key (ctx keeps 200 failures in all); every one is counted"""
+    _reported[key] += 1
+    if _reported[key] <= MAX_PER_KEY:
+        ctx.fail(key, case, what)
+    else:
+        ctx.count('oracle-fail:' + key)
+
+
 class RecordingStore(object):
     def __init__(self):
         self.written = []
@@ -70,6 +101,11 @@ class NoopRelay(Relay):
 
 
 # ------------------------------------------------------------------ case material
+def _same(m):
+    """repl function reproducing the matched text"""
+    return m.group(0)
+
+
 RULESETS = [
     [],
     [(r'^a@x\.com$', 'alias@y.org', 0)],
@@ -83,7 +119,25 @@ RULESETS = [
     [(r'@X\.COM$', '@lower.example', 0), (r'(?i)@x\.com$', '@ci.example', 0)],
     [(r'^(.*)@y\.org$', r'\1@Y.ORG', 0), (r'^d@', 'dd@', 0)],
     [(r'@d(\d+)\.example$', r'@d1.example', 0)],
+    # --- rules that MATCH (changes > 0) but reproduce the same text: "first matching rule wins" even then
+    # 12: whole-address exemption in front of a catch-all
+    [(r'^(postmaster|abuse|a)@x\.com$', r'\1@x.com', 0), (r'@x\.com$', '@mailhub.example.net', 0)],
+    # 13: domain-only identity in front of a local-part rule and a catch-all
+    [(r'@x\.com$', '@x.com', 0), (r'^a@', 'z@', 0), (r'@', '@caught.', 0)],
+    # 14: identity with a count, in front of an unlimited rule on the same text
+    [(r'a', 'a', 1), (r'a', 'b', 0)],
+    # 15: identity behind a rule that matches other recipients, in front of a catch-all
+    [(r'^b@x\.com$', 'bb@x.com', 0), (r'(?i)@x\.com$', _same, 0), (r'(?i)@x\.com$', '@hub.example', 0)],
+    # 16: the identity rule is the only rule (whole address)
+    [(r'^(.*)$', r'\1', 0)],
+    # 17: the identity rule is the last rule (behind non-matching ones)
+    [(r'^nobody@', 'x@', 0), (r'@nowhere$', '@x', 0), (r'^(.+)@(.+)$', r'\1@\2', 1)],
+    # 18: two identity rules, then a rewrite; the empty-result rule in front does not count as a match
+    [(r'^.*$', '', 0), (r'@', '@', 1), (r'\.', '.', 0), (r'^', 'late-', 0)],
+    # 19: identity for the missing-domain addresses, everything else rewritten
+    [(r'^[^@]*$', _same, 0), (r'^(.*)@[^@]*$', r'\1@rewritten.example', 0), (r'$', '@default.example', 0)],
 ]
+IDENTITY_RULESETS = [6, 12, 13, 14, 15, 16, 17, 18, 19]
 RCPT_POOL = ['a@x.com', 'b@x.com', 'c@X.COM', 'd@y.org', 'e@Y.org', 'f@Y.Org', 'nodomain', 'trailing@', '@lead.com', 'two@@z.net',
              'a@b@c.io', '', 'a@x.com', 'ü@x.com', '"quoted@local"@q.net', ' spaced @ s.net', 'A@X.COM', '@', 'x@y@', 'user@sub.x.com']
 HEADER_SETS = [
@@ -95,7 +149,19 @@ HEADER_SETS = [
     [('Received', 'from orig1 by orig; Mon, 01 Jan 2024 00:00:00 +0000'), ('Received', 'from orig2 by orig; Mon, 01 Jan 2024 00:00:00 +0000'),
      ('From', 'orig@example.com'), ('Message-Id', '<orig2@example.com>'), ('DATE', 'Mon, 01 Jan 2024 00:00:00 +0000')],
     [('X-Date', 'orig not a date'), ('X-Message-Id', 'orig'), ('Subject', 'orig'), ('Subject', 'orig again')],
+    # --- Date / Message-Id PRESENT BUT EMPTY (third component: the raw field line; second: the value the parser gives)
+    [('Date', '', 'Date:\r\n')],
+    [('Date', '', 'Date: \r\n'), ('Subject', 'orig subject')],
+    [('Subject', 'orig subject'), ('DATE', '', 'DATE:   \r\n')],
+    [('message-id', '', 'message-id:\r\n')],
+    [('From', 'orig@example.com'), ('Message-ID', '', 'Message-ID:  \t \r\n'), ('Date', '', 'Date:\r\n')],
+    [('Received', 'from orig1 by orig; Mon, 01 Jan 2024 00:00:00 +0000'), ('Subject', 'orig'), ('dAtE', '', 'dAtE:\r\n'),
+     ('MESSAGE-id', '', 'MESSAGE-id: \r\n'), ('To', 'x@example.com')],
+    [('Date', '', 'Date:\r\n'), ('Message-Id', '<orig3@example.com>')],
+    [('date', 'Mon, 01 Jan 2024 00:00:00 +0000'), ('Message-Id', '', 'Message-Id:\r\n'), ('Subject', 'orig subject')],
+    [('DATE', '', 'DATE:\r\n'), ('Date', 'Mon, 01 Jan 2024 00:00:00 +0000'), ('message-ID', '', 'message-ID:\r\n')],
 ]
+EMPTY_HEADER_SETS = list(range(7, 16))
 KINDS = ['split', 'domain', 'forward', 'date', 'mid', 'received']
 EXTRA_KINDS = ['self', 'keepsplit']
 TAG = {'split': 0, 'domain': 1, 'forward': 2, 'date': 3, 'mid': 4, 'received': 5, 'self': 6, 'keepsplit': 7}
@@ -143,7 +209,7 @@ def build_policies(chain):
 
 def build_envelope(sender, rcpts, headers, body):
     e = Envelope(sender, list(rcpts))
-    block = b''.join(('%s: %s\r\n' % h).encode() for h in headers)
+    block = b''.join((h[2] if len(h) > 2 else '%s: %s\r\n' % tuple(h[:2])).encode() for h in headers)
     e.parse(block + b'\r\n' + body)
     e.client = {'ip': '192.0.2.7', 'host': 'client.example', 'name': 'helo.example', 'protocol': 'ESMTP'}
     e.receiver = 'recv.example'
@@ -211,10 +277,16 @@ def run_case(ctx, chain, sender, rcpts, headers, body, mode):
     env = build_envelope(sender, rcpts, headers, body)
     orig = dict(env=env, rcpts=env.recipients, headers=env.headers, client=env.client)
     orig_items = [(k, str(v)) for k, v in env.headers.items()]
+    if orig_items != [(h[0], h[1]) for h in headers]:
+        ctx.mismatch('header-block-parse', case, orig_items, [(h[0], h[1]) for h in headers])
+    if type(env.headers) is EmailMessage:
+        env.headers.__class__ = RecHeaders
+    RecHeaders.log = log = []
     store = RecordingStore()
     q = Queue(store, NoopRelay() if mode == 'enqueue+relay' else None)
     for p in build_policies(chain):
         q.add_policy(p)
+    written = None
     try:
         if mode == 'run_policies':
             written = q._run_policies(env)
@@ -222,13 +294,21 @@ def run_case(ctx, chain, sender, rcpts, headers, body, mode):
             res = q.enqueue(env)
             written = list(store.written)
             if [e for e, _ in res] != written:
-                ctx.fail('c16:enqueue-result-differs-from-written', case, 'enqueue() returned other envelopes than it wrote')
+                fail(ctx, 'c16:enqueue-result-differs-from-written', case, 'enqueue() returned other envelopes than it wrote')
             if mode == 'enqueue+relay':
                 gevent.sleep(0)
                 gevent.idle()
     except Exception as ex:
-        ctx.fail('c16:enqueue-raised', case, '%s: %s' % (type(ex).__name__, ex))
-        return None
+        # an exception escaping policy application: nothing (or not everything) is written, recipients are lost
+        fail(ctx, 'c16:policy-raises', case, '%s(%s) escaped %s; %d envelopes written, recipients %r lost' % (
+            type(ex).__name__, ex, 'Queue._run_policies' if mode == 'run_policies' else 'Queue.enqueue', len(store.written),
+            list(rcpts)))
+    hit = added_although_present(log)
+    if hit:
+        fail(ctx, 'c16:date-or-message-id-added-although-present', case,
+             'a policy assigned headers[%r] while the fields %r were present (present-but-empty counts as present)' % hit)
+    if written is None:
+        return None, case
     snaps = [snapshot(e) for e in written]
     # ---- canonical observation for the correspondence
     obs = []
@@ -245,10 +325,10 @@ def run_case(ctx, chain, sender, rcpts, headers, body, mode):
         want.append(r)
     got = [r for s in snaps for r in s[1]]
     if collections.Counter(got) != collections.Counter(want):
-        ctx.fail('c16:recipient-lost-or-duplicated', case, 'written recipients %r, expected (as a multiset) %r' % (sorted(got), sorted(want)))
+        fail(ctx, 'c16:recipient-lost-or-duplicated', case, 'written recipients %r, expected (as a multiset) %r' % (sorted(got), sorted(want)))
     for s in snaps:
         if s[0] != sender or s[3] != body:
-            ctx.fail('c16:sender-or-body-changed', case, 'written envelope has sender %r body %r' % (s[0], s[3]))
+            fail(ctx, 'c16:sender-or-body-changed', case, 'written envelope has sender %r body %r' % (s[0], s[3]))
             break
     pre, suf = expected_names(chain, [k for k, _ in orig_items])
     for s in snaps:
@@ -256,7 +336,7 @@ def run_case(ctx, chain, sender, rcpts, headers, body, mode):
         names = [k for k, _ in items]
         ok = (names == pre + [k for k, _ in orig_items] + suf and items[len(pre):len(pre) + len(orig_items)] == orig_items)
         if not ok:
-            ctx.fail('c16:header-rule', case, 'headers %r, expected names %r around the original %r' % (items, (pre, suf), orig_items))
+            fail(ctx, 'c16:header-rule', case, 'headers %r, expected names %r around the original %r' % (items, (pre, suf), orig_items))
             break
     # no shared mutable state: object identities, then a mutation probe
     shared = []
@@ -279,7 +359,7 @@ def run_case(ctx, chain, sender, rcpts, headers, body, mode):
             if snapshot(e) != snaps[i]:
                 shared.append((i, i))
     if shared:
-        ctx.fail('c16:shared-mutable-state', case, 'written envelopes %r share recipients / headers / client' % (shared[:5],))
+        fail(ctx, 'c16:shared-mutable-state', case, 'written envelopes %r share recipients / headers / client' % (shared[:5],))
     return obs, case
 
 
@@ -296,7 +376,7 @@ def model_obs(o):
 def run_cases(ctx, cases):
     jobs = []
     for (chain, sender, rcpts, headers, body, mode) in cases:
-        jobs.append([sender, list(rcpts), [[k, v] for k, v in headers], body, model_chain(chain), subn_table(chain, rcpts)])
+        jobs.append([sender, list(rcpts), [[h[0], h[1]] for h in headers], body, model_chain(chain), subn_table(chain, rcpts)])
     outs = ctx.model.batch('c16_run', jobs)
     for (chain, sender, rcpts, headers, body, mode), o in zip(cases, outs):
         kinds = [k for k, _ in chain]
@@ -307,9 +387,10 @@ def run_cases(ctx, cases):
         r = run_case(ctx, chain, sender, rcpts, headers, body, mode)
         nontriv = len(rcpts) > 1 and len(chain) > 0
         ctx.evaluated((tuple(chain), tuple(rcpts), tuple(headers), mode), nontrivial=nontriv)
-        if r is None:
-            continue
         obs, case = r
+        if obs is None:      # the implementation raised (reported as c16:policy-raises); the model has no such path
+            ctx.mismatch('run_policies-implementation-raised', case, 'exception, see c16:policy-raises', dict(envelopes=model_obs(o)[1]))
+            continue
         failed, mo = model_obs(o)
         ctx.count('outputs:%s' % (len(obs) if len(obs) < 5 else '5+'))
         if failed or obs != mo:
@@ -341,6 +422,104 @@ def run_domains(ctx):
     ctx.count('get_domain-cases', len(addrs))
 
 
+FWD_ADDRS = ['postmaster@x.com', 'abuse@x.com', 'Postmaster@X.com', 'aa', 'x', 'plain', 'a.b@c.d', 'nobody@nowhere', 'ba@x.com', 'a@x.com.au']
+FIXED_RCPTS = ['postmaster@x.com', 'a@x.com', 'b@x.com', 'a@x.com', 'c@X.COM', 'nodomain', 'd@y.org', 'abuse@x.com']
+
+
+def run_forward(ctx):
+    """Forward.apply directly: every rule set x every address of the pools.  Oracle stated per rule with re.subn's
+    substitution COUNT: the first rule with changes > 0 and a non-empty result gives the recipient (also when that
+    result is the same text: later rules are not consulted); no such rule: unchanged."""
+    addrs = list(dict.fromkeys(RCPT_POOL + FWD_ADDRS))
+    todo = [(rs, a) for rs in range(len(RULESETS)) for a in addrs]
+    jobs = []
+    for rs, a in todo:
+        chain = [('forward', rs)]
+        jobs.append(['s@example.com', [a], [], b'', model_chain(chain), subn_table(chain, [a])])
+    outs = ctx.model.batch('c16_run', jobs)
+    for (rs, a), o in zip(todo, outs):
+        rules = RULESETS[rs]
+        case = dict(chain=[['forward', rs]], sender='s@example.com', rcpts=[a], headers=[], body=b'', mode='forward-apply')
+        f = build_policies([('forward', rs)])[0]
+        env = Envelope('s@example.com', [a])
+        lst = env.recipients
+        ans = [re.subn(pat, repl, a, count) for pat, repl, count in rules]
+        matched = [j for j, (new, n) in enumerate(ans) if new and n > 0]
+        identity = bool(matched) and ans[matched[0]][0] == a
+        ctx.count('forward-apply:' + ('identity-match-then-%s' % ('more-matching-rules' if len(matched) > 1 else 'nothing') if identity
+                                      else 'rewritten' if matched else 'unmatched'))
+        ctx.evaluated(('forward-apply', rs, a), nontrivial=len(matched) > 0)
+        try:
+            ret = f.apply(env)
+        except Exception as ex:
+            fail(ctx, 'c16:policy-raises', case, '%s(%s) escaped Forward.apply' % (type(ex).__name__, ex))
+            continue
+        if ret or env.recipients is not lst or len(lst) != 1:
+            fail(ctx, 'c16:recipient-lost-or-duplicated', case, 'Forward.apply returned %r, recipients %r' % (ret, env.recipients))
+            continue
+        got = lst[0]
+        if matched and got != ans[matched[0]][0]:
+            j = matched[0]
+            fail(ctx, 'c16:forward-first-matching-rule-does-not-win', case,
+                 'rule %d %r matches %r (re.subn gives %r, %d substitutions%s) and is the first that does, but the recipient became %r' % (
+                     j, rules[j][:1] + (getattr(rules[j][1], '__name__', rules[j][1]),), a, ans[j][0], ans[j][1],
+                     ', the same text' if identity else '', got))
+        elif not matched and got != a:
+            fail(ctx, 'c16:forward-unmatched-recipient-changed', case, 'no rule matches %r but the recipient became %r' % (a, got))
+        failed, mo = model_obs(o)
+        if failed or len(mo) != 1 or mo[0][2] != (got,):
+            ctx.mismatch('forward_apply', case, got, dict(failed=failed, envelopes=mo))
+    ctx.count('forward-apply-cases', len(todo))
+
+
+def chains_containing(kinds, maxlen, need):
+    for L in range(1, maxlen + 1):
+        for ks in itertools.product(kinds, repeat=L):
+            if any(k in need for k in ks):
+                yield ks
+
+
+def identity_cases(rng):
+    """every chain of length <= 3 over split / domain / Forward / received that contains Forward, for every rule set with a
+    matching-but-identity rule: Forward before / after / between the split policies and repeated"""
+    cases = []
+    for rs in IDENTITY_RULESETS:
+        for ks in chains_containing(['split', 'domain', 'forward', 'received'], 3, ['forward']):
+            first = True
+            chain = []
+            for k in ks:
+                if k == 'forward':
+                    chain.append((k, rs if first else rng.choice([rs, rng.randrange(len(RULESETS))])))
+                    first = False
+                else:
+                    chain.append((k, None))
+            mode = rng.choice(['enqueue'] * 8 + ['run_policies', 'enqueue+relay'])
+            rcpts = FIXED_RCPTS if rng.random() < 0.6 else gen_rcpts(rng)
+            cases.append((chain, 'sender@example.com', list(rcpts), rng.choice(HEADER_SETS), b'body\r\n', mode))
+    return cases
+
+
+LONG_HEADER_CHAINS = [
+    ['date', 'mid', 'date', 'split', 'mid', 'date', 'domain', 'date', 'mid'],
+    ['received', 'domain', 'received', 'date', 'split', 'received', 'mid', 'date', 'mid'],
+    ['split', 'split', 'date', 'date', 'mid', 'mid'],
+    ['mid', 'domain', 'split', 'domain', 'date', 'received'],
+]
+
+
+def empty_header_cases(rng):
+    """every chain of length <= 3 over split / domain / date / mid / received that contains date or mid (plus four long
+    chains with repetitions) x every header block with a present-but-empty Date / Message-Id"""
+    cases = []
+    chains = list(chains_containing(['split', 'domain', 'date', 'mid', 'received'], 3, ['date', 'mid'])) + LONG_HEADER_CHAINS
+    for hs in EMPTY_HEADER_SETS:
+        for ks in chains:
+            mode = rng.choice(['enqueue'] * 8 + ['run_policies', 'enqueue+relay'])
+            rcpts = ['a@x.com', 'b@x.com', 'd@y.org'] if rng.random() < 0.6 else gen_rcpts(rng)
+            cases.append(([(k, None) for k in ks], 'sender@example.com', list(rcpts), HEADER_SETS[hs], b'body\r\n', mode))
+    return cases
+
+
 def probe_generator(ctx):
     class GenSplit(QueuePolicy):
         def apply(self, envelope):
@@ -358,16 +537,31 @@ def probe_generator(ctx):
 def run(ctx):
     rng = ctx.rng
     ctx.extra['rule'] = (
-        'every chain of length 0..4 over the six built-in policies (1555 chains; Forward with a rule set drawn from 12 sets: first-match, '
-        'count-limited, empty-result, identity-rewrite, case rules, back-references) x recipient lists (duplicates, mixed-case / missing / empty '
-        'domains, many domains, empty list) x original header sets (none, Date / date / MESSAGE-ID / Received present) through the real '
+        'every chain of length 0..4 over the six built-in policies (1555 chains; Forward with a rule set drawn from 20 sets: first-match, '
+        'count-limited, empty-result, case rules, back-references, and 9 sets with a rule that MATCHES but reproduces the same text - whole '
+        'address / domain only / with count / repl function, before and after other matching rules, as the only and as the last rule) x '
+        'recipient lists (duplicates, mixed-case / missing / empty domains, many domains, empty list) x 16 original header blocks (none, '
+        'Date / date / MESSAGE-ID / Received present, and 9 with a present-but-EMPTY / whitespace-only / oddly capitalised Date or Message-Id, '
+        'also below other fields) through the real '
         'Queue.enqueue with a recording store (a sample through Queue._run_policies directly and through enqueue with a no-op relay); '
         'random chains to length 6 over the six policies plus two test-only policies returning their input; compared with the model: the list of '
         'envelopes passed to store.write in order (which of them are the input objects, sender, recipients, header (name, value) list with '
         'generated values masked, body); oracle: multiset of recipients = rewritten originals, sender / body, header rules, pairwise distinct '
-        'objects + mutation probe.  non-trivial = more than one recipient and a non-empty chain')
+        'objects + mutation probe; every header assignment made by a policy is recorded (headers object given a recording subclass): '
+        'Date / Message-Id assigned while such a field is present = failure; an exception escaping enqueue / _run_policies = failure '
+        '(c16:policy-raises), the run goes on.  Systematic streams: Forward.apply alone on every rule set x every pool address (judged per '
+        'rule with re.subn counts: first rule with changes > 0 and non-empty result wins even when the text is unchanged); every chain of '
+        'length <= 3 over split/domain/Forward/received containing Forward x the 9 identity rule sets; every chain of length <= 3 over '
+        'split/domain/date/mid/received containing date or mid (+ 4 long chains with repetitions) x the 9 empty-header blocks.  '
+        'non-trivial = more than one recipient and a non-empty chain (Forward.apply stream: some rule matches)')
+    _reported.clear()
     run_domains(ctx)
-    cases = []
+    run_forward(ctx)
+    ident = identity_cases(rng)
+    empties = empty_header_cases(rng)
+    ctx.count('identity-rule-chain-cases', len(ident))
+    ctx.count('empty-date-or-message-id-chain-cases', len(empties))
+    cases = ident + empties
     reps = 2 if ctx.quick else 12
     for kinds in all_chains(4):
         for _ in range(reps):
@@ -400,20 +594,32 @@ def replay(ctx, case):
     headers = [tuple(h) for h in c['headers']]
     body = unhex(c['body'])
     env = build_envelope(c['sender'], c['rcpts'], headers, body)
+    print('chain:', chain)
+    for k, rs in chain:
+        if k == 'forward':
+            print('  forward rules:', [(pat, getattr(repl, '__name__', repl), count) for pat, repl, count in RULESETS[rs]])
+            for r in c['rcpts']:
+                print('    %r -> re.subn per rule: %r' % (r, [re.subn(pat, repl, r, count) for pat, repl, count in RULESETS[rs]]))
+    print('input recipients:', c['rcpts'])
+    print('input headers:', [(k, str(v)) for k, v in env.headers.items()])
+    if type(env.headers) is EmailMessage:
+        env.headers.__class__ = RecHeaders
+    RecHeaders.log = log = []
     store = RecordingStore()
     q = Queue(store)
     for p in build_policies(chain):
         q.add_policy(p)
-    q.enqueue(env)
-    print('chain:', chain)
-    for k, rs in chain:
-        if k == 'forward':
-            print('  forward rules:', RULESETS[rs])
-    print('input recipients:', c['rcpts'])
+    try:
+        q.enqueue(env)
+    except Exception as ex:
+        print('Queue.enqueue RAISED %s(%s); %d envelopes written' % (type(ex).__name__, ex, len(store.written)))
+    hit = added_although_present(log)
+    if hit:
+        print('a policy assigned headers[%r] while the fields %r were present' % hit)
     for e in store.written:
         print('written:', e.sender, e.recipients, [(k, str(v)) for k, v in e.headers.items()], e.message,
               'input-object' if e is env else 'copy')
     if ctx.model:
-        o = ctx.model.call('c16_run', [c['sender'], list(c['rcpts']), [[k, v] for k, v in headers], body, model_chain(chain), subn_table(chain, c['rcpts'])])
+        o = ctx.model.call('c16_run', [c['sender'], list(c['rcpts']), [[h[0], h[1]] for h in headers], body, model_chain(chain), subn_table(chain, c['rcpts'])])
         print('model:', model_obs(o))
     return 0
